@@ -1,10 +1,12 @@
 import OpusModel.Layout
 import OpusModel.Matrix
+import OpusModel.Projection
+import OpusModel.MsEncode
 import Driver.Util
 /- Suite `layout` (C10): channel layouts, surround / ambisonics / projection construction,
    multistream packet validation, decode routing, mapping-matrix multiplies. -/
 namespace Driver.SuiteLayout
-open Opus Opus.Layout Opus.Matrix Driver
+open Opus Opus.Layout Opus.Matrix Opus.Projection Driver
 
 def layoutStr (l : ChannelLayout) : String :=
   s!"{l.nbChannels}/{l.nbStreams}/{l.nbCoupled}/{natList l.mapping}"
@@ -44,7 +46,76 @@ def parseBitsList (s : String) : Option (List (Int × Int)) :=
     | some b => f32Decode b
     | none => none
 
+/-- `x..` hex packets separated by `/`. -/
+def parsePackets (s : String) : Option (List Bytes) :=
+  if s = "-" then some [] else (s.splitOn "/").mapM parseHex
+
+/-- bit patterns → dyadics (finite values only). -/
+def parseDyList (s : String) : Option (List Dy) :=
+  if s = "-" then some []
+  else (s.splitOn ",").mapM fun t => match t.toNat? with
+    | some b => f32Decode b
+    | none => none
+
+def floatOutStr (r : FloatOut) : String :=
+  if r.exact then "OK " ++ listStr (r.vals.map fun v => toString (dyBits v)) else "INEXACT"
+
+/-- The scripted per-stream encoder of the `msenc` suite: stream `s` answers its packet when it fits
+    `curr_max`, `OPUS_BUFFER_TOO_SMALL` otherwise (`e` = a scripted error code instead of a packet). -/
+def scriptEnc (pks : List Bytes) (s : Nat) (cm : Int) : Res Bytes :=
+  match pks[s]? with
+  | some pk => if (pk.length : Int) ≤ cm then .ok pk else .err .bufferTooSmall
+  | none => .err .badArg
+
 def handle : List String → String
+  | ["msenc", n, fs, frameSize, vbr, bitrate, maxData, pks] =>
+    match parseNat n, parseNat fs, parseNat frameSize, parseNat vbr, parseInt maxData, parsePackets pks with
+    | some n, some fs, some frameSize, some vbr, some maxData, some pks =>
+      let br : Option (Option Int) := if bitrate = "-" then some none else (parseInt bitrate).map some
+      match br with
+      | none => "bad-op"
+      | some br =>
+        if frameSize = 0 ∨ n = 0 ∨ pks.length ≠ n then "bad-op"
+        else
+          let enc := scriptEnc pks
+          let fs100 := decide (fs / frameSize = 10)
+          let eff := MsEncode.cbrClamp n fs100 (vbr != 0) fs frameSize br maxData
+          -- curr_max values the per-stream encoders are called with (streams 0.. until the first failure)
+          let cms := (List.range n).filterMap fun s =>
+            match MsEncode.loop n fs100 (vbr != 0) eff enc s 0 0 [] with
+            | .ok pre => some (MsEncode.currMax n s fs100 eff pre.length)
+            | _ => none
+          let cmStr := if maxData < MsEncode.smallestPacket n fs100 then "-" else listStr (cms.map toString)
+          match MsEncode.encodeNative n fs frameSize (vbr != 0) br maxData enc with
+          | .ok out => s!"ret={out.length} cm={cmStr} data={toHex out}"
+          | .err e => s!"ret={e.name} cm={cmStr}"
+          | .oob => "OOB"
+          | .abort => "ABORT"
+    | _, _, _, _, _, _ => "bad-op"
+  | ["projdec", mode, fsok, channels, streams, coupled, hex, size] =>
+    match parseNat fsok, parseInt channels, parseInt streams, parseInt coupled, parseHex hex, parseInt size with
+    | some fsok, some ch, some st, some co, some dm, some size =>
+      let f := fun (pd : ProjDecoder) =>
+        s!"OK st={layoutStr pd.layout} m={pd.matrix.rows}x{pd.matrix.cols}:{pd.matrix.gain} cells={listStr (pd.matrix.data.map toString)}"
+      if mode = "create" then resStr f (Projection.decoderCreate (fsok != 0) ch st co dm size)
+      else if mode = "init" then resStr f (Projection.decoderInit (fsok != 0) ch st co dm size)
+      else "bad-op"
+    | _, _, _, _, _, _ => "bad-op"
+  | ["mixinf", o, which, inputRows, outputRow, outputRows, frameSize, bits] =>
+    match parseNat o, parseNat inputRows, parseNat outputRow, parseNat outputRows, parseNat frameSize, parseDyList bits with
+    | some o, some ir, some orow, some ors, some n, some input =>
+      match pickMatrix o which with
+      | none => "bad-op"
+      | some m => resStr floatOutStr (multiplyChannelInFloat m input ir orow ors n)
+    | _, _, _, _, _, _ => "bad-op"
+  | ["mixoutf", o, which, inputRow, inputRows, outputRows, frameSize, bits, outInit] =>
+    match parseNat o, parseNat inputRow, parseNat inputRows, parseNat outputRows, parseNat frameSize,
+          parseDyList bits, parseDyList outInit with
+    | some o, some irow, some irs, some ors, some n, some input, some out0 =>
+      match pickMatrix o which with
+      | none => "bad-op"
+      | some m => resStr floatOutStr (multiplyChannelOutFloat m input irow irs out0 ors n)
+    | _, _, _, _, _, _, _ => "bad-op"
   | ["surround", mode, fsok, family, channels] =>
     match parseNat fsok, parseInt family, parseInt channels with
     | some fsok, some family, some channels =>
